@@ -30,7 +30,7 @@ CMT = {'comment.enabled': True, 'comment.before': '<!-- [#ID][.CLASS] [FOO] -->'
 USER_MARKUP_SNIPPETS = {'vs': 'x-v[a b=c]>x-w', 'vt': '{text ${1}}', 'vr': 'vr.x'}
 # legal-looking tables a user may well write: empty alternatives, a bare colon, blanks, upper case, digits in the property
 SLOPPY_CSS_SNIPPETS = {'foo': 'bar:a|', 'sb': 'bar:|a', 'sc': 'bar:a||b', 'sd': 'bar:', 'se': 'bar : a | b ', 'sf': 'Bar:a', 'sg': 'bar2:a', 'sh': '', 'si': ' ', 'sj': 'bar:a;b',
-                       'sk': '|', 'sl': 'bar:${1}|${2:x}', 'sm': 'bar:"a|b"|c', 'sn': ':a', 'p': 'padding:1 2|'}
+                       'sk': '|', 'sl': 'bar:${1}|${2:x}', 'sm': 'bar:"a|b"|c', 'sn': ':a', 'p': 'padding:1 2|', 'so': 'bar:+', 'sp': 'bar:a|+', 'sq': 'bar:!'}
 USER_CSS_SNIPPETS = {'foo': 'bar:10|20', 'baz': '${1} x ${2:y}', 'q': 'quux:a(1, 2)|b', 'p': 'padding:1 2'}
 def strict_field(index, placeholder, **kw):
     "a consumer that relies on the callback contract: an integer index, a string placeholder, integer positions"
